@@ -111,7 +111,13 @@ class Codec(object):
     def request(self, m, args, rpc=False):
         if rpc:
             return [0, 7, m["name"], [self.encode_slot(t, v) for (_, t), v in zip(m["args"], args)]]
-        if self.cfg.complex_as == "list":
+        if m.get("style") == "bare" and m["args"]:
+            (an, t), v = m["args"][0], args[0]
+            body = self.encode_slot(t, v)
+            if self.cfg.wrappers and t["k"] == "ref" and isinstance(body, dict) and len(body) == 1:
+                # the method key is the wrapper of the argument object
+                body, = body.values()
+        elif self.cfg.complex_as == "list":
             body = [self.encode_slot(t, v) for (_, t), v in zip(m["args"], args)]
         else:
             body = {}
